@@ -360,6 +360,17 @@ func runPair(ctx context.Context, atlas, dir string, cs Case) (o Outcome) {
 			return
 		}
 		o.Applied.Plan = []string{r.Stdout}
+		// the change set of the CLI run is what its printed plan names
+		haveChangeSet = true
+		for _, s := range []sqlm.Schema{cs.A, cs.B} {
+			for _, t := range s.Tables {
+				if strings.Contains(r.Stdout, "`"+t.Name+"`") || strings.Contains(r.Stdout, "`new_"+t.Name+"`") || strings.Contains(r.Stdout, `"`+t.Name+`"`) {
+					if !slices.Contains(o.Applied.Tables, t.Name) {
+						o.Applied.Tables = append(o.Applied.Tables, t.Name)
+					}
+				}
+			}
+		}
 		if r.Exit != 0 {
 			if sqlm.Unsupported(r.Stderr + r.Stdout) {
 				o.OOD = "cli: " + sqlm.ErrClass(strings.TrimSpace(r.Stderr))
